@@ -125,7 +125,7 @@ PROPS = {
     'C20': dict(
         level='proof',
         contracts=['C20', 'wsgi', 'config'],
-        frames=['codec_lemma', 'error_sites'],
+        frames=['codec_lemma', 'error_sites', 'confinement'],
         technique='deductive: dataflow VCs from the real AST of error_render.render and Ombott.default_error_handler (the URL reaches '
                   'the template context only as repr(html.escape(url)); debug-only fields are constants otherwise); complete per-code-point '
                   'enumeration of html.escape / html_escape; per-site literal-body obligations over every framework HTTPError(...); bounded '
@@ -341,3 +341,6 @@ _MORE = {
 }
 for _p, _t in _MORE.items():
     PROPS[_p]['level_text'] = PROPS[_p].get('level_text', '') + _t
+PROPS['C20']['level_text'] = PROPS['C20'].get('level_text', '') + (
+    ' The confinement frame runs here too: render and the error handler keep no module- or class-level state (a memo of escaped URLs '
+    'that falls back to the raw text when full would be such state).')
